@@ -3,9 +3,12 @@ package props
 import (
 	"fmt"
 	"math"
+	"os"
+	"path/filepath"
 	"time"
 
 	wt "github.com/hnakamur/whispertool"
+	wcmd "github.com/hnakamur/whispertool/cmd"
 
 	"verifharness/fw"
 	"verifharness/model"
@@ -28,7 +31,7 @@ func (c04) Meta() fw.Meta {
 			"clock domain: maxRetention + 2*maxStep <= now and now + 2*maxStep < 2^32",
 			"the Fetch() convenience wrapper is driven through the library's settable clock whispertool.Now (one worker process = one clock)",
 		},
-		Obligations: []string{"shape_checks", "absent_future", "absent_too_old", "error_from_after_until", "error_bad_id", "degenerate_extended", "clamped_from", "clamped_until", "best_selected_coarser", "never_written_checked", "written_checked", "wrapper_fetch_checked", "reader_clock_behind_passes"},
+		Obligations: []string{"shape_checks", "absent_future", "absent_too_old", "error_from_after_until", "error_bad_id", "degenerate_extended", "clamped_from", "clamped_until", "best_selected_coarser", "never_written_checked", "written_checked", "wrapper_fetch_checked", "reader_clock_behind_passes", "ticking_default_clock_fetches", "remote_fetches", "concurrent_noise_requests_served"},
 	}
 }
 
@@ -277,7 +280,84 @@ func (c04) Run(c *fw.Ctx) {
 			}
 		}
 	}
+	// default clock (now == 0) while the clock TICKS: every reading of the clock returns the next second. A fetch is
+	// one request at one instant: its result must be the contract's shape at ONE of the instants it was handed
+	// (windows sit on retention edges, where selection and clamping at different instants give a shape of neither).
+	tick := int64(0)
+	var handed []int64
+	wt.Now = func() time.Time {
+		t := now + tick
+		tick++
+		handed = append(handed, t)
+		return time.Unix(t, 0)
+	}
+	for j := 0; j < 24 && !c.Violated(); j++ {
+		if now+400+2*l.MaxStep() >= 1<<32 {
+			break // the ticking instants would leave the clock domain
+		}
+		ai := r.Intn(k)
+		a := l.Archs[ai]
+		id := -1
+		if j%3 == 2 {
+			id = ai
+		}
+		from := now + tick + int64(r.Intn(3)) - a.Ret() // the retention edge of archive ai at one of the next instants
+		if r.Intn(4) == 0 {
+			from = now + tick - r.Int63n(l.MaxRet()+1)
+		}
+		if from < 0 {
+			from = 0
+		}
+		until := from + 1 + r.Int63n(a.Ret())
+		if r.Intn(3) == 0 {
+			until = now + tick + int64(r.Intn(3))
+		}
+		if until < from {
+			until = from
+		}
+		if until > math.MaxUint32 {
+			until = math.MaxUint32
+		}
+		for _, f := range files {
+			handed = handed[:0]
+			var ts *wt.TimeSeries
+			var err error
+			if id == -1 && j%2 == 0 {
+				ts, err = f.db.Fetch(u32(from), u32(until))
+			} else {
+				ts, err = f.db.FetchFromArchive(id, u32(from), u32(until), 0)
+			}
+			o := observeShape(ts, err)
+			c.Count("ticking_default_clock_fetches", 1)
+			cands := append([]int64(nil), handed...)
+			if len(cands) == 0 {
+				cands = []int64{now}
+			}
+			if len(cands) > 1 {
+				c.Count("ticking_clock_read_more_than_once", 1)
+			}
+			ok := false
+			var wants []model.Shape
+			for _, cn := range cands {
+				w := model.FetchShape(l, id, from, until, cn)
+				wants = append(wants, w)
+				if shapeEqual(o, w) {
+					ok = true
+				}
+			}
+			if !ok {
+				c.Violationf("default-clock-shape-of-no-instant", fw.J{"layout": l, "id": id, "from": from, "until": until, "file": f.name, "instants_handed_out": cands, "contract_at_each": wants, "got": o},
+					"fetch with the default clock (id %d, window [%d,%d]) was handed the instants %v and returned %s: the contract's shape at none of them", id, from, until, cands, fw.JSON(o))
+			}
+		}
+	}
 	wt.Now = oldNow
+
+	// the same contract for fetches that go through the server (the request names its clock): every 6th case, against
+	// the single-threaded server with delayed socket writes while other clients read files of the same layout
+	if c.Index%6 == 0 && !c.Violated() {
+		c04Remote(c, l, now)
+	}
 
 	if sawAbsent && sawDegen && sawClamp {
 		c.Nontrivial(l.String(), now)
@@ -285,4 +365,83 @@ func (c04) Run(c *fw.Ctx) {
 	if c.Index < 64 {
 		c.Sample(fw.J{"layout": l.String(), "clock": now, "ids": ids, "windows_per_id": 70, "files": []string{"never-written", "all-written", "some-written"}})
 	}
+}
+
+func c04Remote(c *fw.Ctx, l model.Layout, now int64) {
+	r := c.Rng
+	u, served, ok := workerServer1P(c)
+	if !ok {
+		return
+	}
+	k := len(l.Archs)
+	dirName := fmt.Sprintf("c04-%d-%d", c.Seed, c.Index)
+	mustMkdir(filepath.Join(served, dirName))
+	defer os.RemoveAll(filepath.Join(served, dirName))
+	rels := []string{filepath.Join(dirName, "a.wsp"), filepath.Join(dirName, "b.wsp"), filepath.Join(dirName, "never.wsp")}
+	for fi, rel := range rels {
+		db, err := createFile(filepath.Join(served, rel), l)
+		if err != nil {
+			panic(err)
+		}
+		if fi < 2 {
+			for ai, a := range l.Archs {
+				for j := 0; j < 6; j++ {
+					db.UpdatePointForArchive(ai, u32(inRangeTime(r, now, a.Ret())), wt.Value(float64(fi*100+j)+0.25), u32(now))
+				}
+			}
+		}
+		if err := db.Sync(); err != nil {
+			panic(err)
+		}
+		db.Close()
+	}
+	if server1PDelayed(c) {
+		c.Count("server_socket_writes_delayed", 1)
+	}
+	withServerNoise(c, u, rels[:2], func() {
+		for j := 0; j < 24 && !c.Violated(); j++ {
+			rel := rels[r.Intn(len(rels))]
+			sel := r.Intn(k+2) - 1 // -1 (every archive) .. k (out of range)
+			a := l.Archs[r.Intn(k)]
+			edge := now - a.Ret()
+			pts := []int64{edge - int64(a.Step), edge, edge + 1, now - r.Int63n(a.Ret()+1), now - r.Int63n(a.Ret()+1), now - 1, now, now + 1 + r.Int63n(int64(a.Step)+1), 0}
+			from, until := pts[r.Intn(len(pts))], pts[r.Intn(len(pts))]
+			if from < 0 {
+				from = 0
+			}
+			if until < 0 {
+				until = 0
+			}
+			_, tl, err := wcmd.VerifReadWhisperFile(u, rel, sel, u32(from), u32(until), u32(now))
+			c.Count("remote_fetches", 1)
+			detail := fw.J{"layout": l, "file": rel, "archive": sel, "from": from, "until": until, "now": now}
+			wantErr := from > until || sel >= k
+			if (err != nil) != wantErr {
+				detail["err"] = fmt.Sprint(err)
+				c.Violationf("remote-shape-error-mismatch", detail, "fetch through the server (archive %d, window [%d,%d], clock %d): error=%v, the contract demands error=%v", sel, from, until, now, err, wantErr)
+				return
+			}
+			if err != nil {
+				continue
+			}
+			if len(tl) != k {
+				c.Violationf("remote-shape-mismatch", detail, "fetch through the server returned %d series for %d archives", len(tl), k)
+				return
+			}
+			for ai := range l.Archs {
+				if sel >= 0 && ai != sel {
+					continue
+				}
+				want := model.FetchShape(l, ai, from, until, now)
+				o := observeShape(tl[ai], nil)
+				if o.bad != "" || !shapeEqual(o, want) {
+					detail["archive_index"] = ai
+					detail["want"] = want
+					detail["got"] = o
+					c.Violationf("remote-shape-mismatch", detail, "fetch through the server, archive %d window [%d,%d] clock %d: got %s, the contract demands %s %s", ai, from, until, now, fw.JSON(o), fw.JSON(want), o.bad)
+					return
+				}
+			}
+		}
+	})
 }
